@@ -147,8 +147,11 @@ def fit_into_array(
     return output
 
 
-def _get_file_signature(filename: str | Path) -> tuple[int, int] | None:
-    """Get the modification time (in ns) and the size of a local file.
+def _get_file_signature(filename: str | Path) -> tuple[int, int, int] | None:
+    """Get the modification time, the status change time (in ns) and the size of a local file.
+
+    The status change time also changes when a file is rewritten and its modification
+    time is restored afterwards.
 
     Returns ``None`` when this information is not available (e.g. for a remote file).
     """
@@ -161,7 +164,7 @@ def _get_file_signature(filename: str | Path) -> tuple[int, int] | None:
     except (OSError, ValueError):
         return None
 
-    return stat_result.st_mtime_ns, stat_result.st_size
+    return stat_result.st_mtime_ns, stat_result.st_ctime_ns, stat_result.st_size
 
 
 def load_cropped_and_aligned_image(
@@ -200,7 +203,7 @@ def _load_cropped_and_aligned_image(
         Literal["center", "top_left", "top_right", "bottom_left", "bottom_right"] | None
     ) = None,
     allow_smaller_array: bool = True,
-    file_signature: tuple[int, int] | None = None,
+    file_signature: tuple[int, int, int] | None = None,
 ) -> np.ndarray:
     """Load image from file and fit to detector shape.
 
